@@ -1551,6 +1551,14 @@ def make_swarm(rng, prop, run_cfg):
             sw["restart_formats"] = [f for f in sw["restart_formats"] if f != "pickle"] or ["json"]
             for k in ("copy", "deepcopy", "pickle", "merge", "prune"):
                 weights.pop(k, None)
+    if prop in ("C01", "C02", "C03") and rng.random() < 0.15:
+        # coefficients that cancel only up to rounding noise (0.1 + 0.2 - 0.3) or are tiny but not zero: Python side and solver must
+        # still agree exactly.  Not together with operations that send the problem through GLPK's 15-digit text format.
+        sw["noise"] = True
+        for k in ("copy", "deepcopy", "pickle", "merge", "prune", "solver", "restart"):
+            weights.pop(k, None)
+        for k in ("add_mets", "sub_mets"):
+            weights[k] = weights.get(k, 3) * 3
     if not weights:
         weights = {"set_bounds": 1}
     sw["weights"] = weights
@@ -1646,6 +1654,8 @@ def gen_op(rng, H, sw):
             if sw.get("nonround") and rng.random() < 0.5:
                 # 16-17 significant digits, also in exponent notation
                 out[-1][1] = rng.choice([1 / 3, -2 / 7, 8.028549152229672e-13, -1.2345678901234567e-05, 1e7 / 3])
+            if sw.get("noise") and rng.random() < 0.6:
+                out[-1][1] = rng.choice([0.1, 0.2, -0.3, 0.3, -0.1, -0.2, 1e-13, -1e-13])
         return out
 
     if k == "set_bounds":
@@ -1718,8 +1728,15 @@ def gen_op(rng, H, sw):
                        "chebi": rng.choice(["CHEBI:17234", ["CHEBI:17234", "CHEBI:4167"], ["CHEBI:15377"], ["CHEBI:42758", "CHEBI:4275"]]),
                        "ec-code": rng.choice(["1.1.1.1", ["2.7.1.1", "2.7.1.2"], ["2.7.1.11", "2.7.1.1"], ["1.1.1.1", "1.1.1.1"][:1]]),
                        "sbo": rng.choice(["SBO:0000176", "SBO:0000247"])}[key]
+                if rng.random() < 0.2:
+                    # identifiers with characters that are not URI-safe (they travel inside an rdf:resource URI)
+                    key = rng.choice(["kegg.drug", "inchi", "reactome"])
+                    val = rng.choice(["alcohol dehydrogenase 1", "C 0001%2", ["R-HSA|70171", "100% pure"], "InChI=1S/H2O/h1H2",
+                                      "caf\u00e9 {x}", ["a^b", "q\"r"]])
             else:
                 key, val = rng.choice(["note", "curator", "confidence"]), rng.choice(["plain text", "x", "3"])
+                if rng.random() < 0.2:
+                    val = rng.choice(["a & b", "x < y", "p > q", "3 < 4 & 5 > 4", "caf\u00e9 100%"])  # plain text, but special in XML
                 if kind == "rxn" and rng.random() < 0.3:
                     # what legacy imports leave behind; the rule itself is edited through the API later
                     key, val = rng.choice(["GENE_ASSOCIATION", "GENE ASSOCIATION"]), rng.choice(["g0 and g1", "g2"])
